@@ -161,6 +161,17 @@ def addr(a):
 
 
 ADDRS = [("10.0.0.2", 30490), ("2001:db8::3", 30490, 0, 0), ("10.0.0.4", 30491)]
+# peers that differ from ADDRS[0..1] in exactly one component of the socket address (scope id, flow label, port, host)
+TWINS = [("2001:db8::3", 30490, 0, 7), ("2001:db8::3", 30490, 9, 0), ("10.0.0.2", 30491), ("10.0.0.3", 30490), ("2001:db8::3", 30491, 0, 0)]
+
+
+def peer_addr(i):
+    """socket address of peer #i: ADDRS, then the one-component twins, then as many further IPv4 hosts as asked for"""
+    pool = ADDRS + TWINS
+    if i < len(pool):
+        return pool[i]
+    i -= len(pool)
+    return (f"10.{1 + ((i >> 16) & 0x7F)}.{(i >> 8) & 255}.{i & 255}", 30490)
 
 
 # ---------------------------------------------------------------- options
